@@ -117,6 +117,14 @@ def gen(ctx):
                    (70, ("res", ("me",), 9))]
             out.append({"D": 400, "me": "a", "cancel": None, "arrivals": arr, "has_cb": True, "cb_shape": shape,
                         "cb_raise": set() if raise_at is None else {raise_at}})
+    # 3d. WHAT a failing callback raises: any Exception subclass, also the library's own (a callback that forwards the update
+    # with a nested send_message fails with the nested request's CancelledError / RetryableError / TimeoutError)
+    for exc in ("lib-cancelled", "lib-retryable", "lib-nonretryable", "timeout", "keyerror"):
+        for raise_at in (0, 1, 2):
+            for cancel in (None, 40):
+                arr = [(3, ("prog", True, 1)), (30, ("prog", True, 4)), (60, ("prog", True, 5)), (70, ("res", ("me",), 9))]
+                out.append({"D": 400, "me": "a", "cancel": cancel, "arrivals": arr, "has_cb": True, "cb_exc": exc,
+                            "cb_raise": {raise_at}})
     # 4. seeded mixtures
     for _ in range(ctx.budget(1500, 40000)):
         D = rng.choice((60, 100, 137, 250, 1000))
